@@ -119,13 +119,16 @@ def src_e(e, maxlev=16, first=False):
             s = '(' + s + ')'
     elif t == 'idx': s = src_e(e[1], 1, True) + '[' + src_e(e[2]) + ']'
     elif t == 'dot': s = src_e(e[1], 1, True) + '.' + e[2]
-    elif t == 'tern': s = src_e(e[1], 13) + ' ? ' + src_e(e[2], 13) + ' : ' + src_e(e[3], 13)
+    elif t == 'tern':         # %right '?' ':' - a ternary in the else position needs no parentheses
+        s = src_e(e[1], 13) + ' ? ' + src_e(e[2], 13) + ' : ' + src_e(e[3], 16 if e[3][0] == 'tern' else 13)
     elif t == 'lam':
         s = '(' + ', '.join(e[1]) + ')' + src_uses(e[2]) + ' => ' + lam_body(e[3])
     elif t == 'fn':
         s = 'function(' + ', '.join(e[1]) + ')' + src_uses(e[2]) + ' ' + src_block(e[3])
     elif t == 'ifx':
         s = 'if (' + src_e(e[1]) + ') ' + src_block(e[2]) + (' else ' + src_block(e[3]) if e[3] is not None else '')
+    elif t == 'ifchain':      # ('ifchain', [(cond, [stmts]), ...], [stmts]|None): if .. else if .. else if .. [else ..]
+        s = ' else '.join('if (' + src_e(c) + ') ' + src_block(b) for c, b in e[1]) + (' else ' + src_block(e[2]) if e[2] is not None else '')
     else:
         raise ValueError(t)
     if lv > maxlev:
@@ -204,6 +207,12 @@ def sx_e(e):
     if t == 'var' and _IMPORTS: return '(varu (%s) %s)' % (' '.join(_IMPORTS), hx(e[1]))
     if t == 'ref': return '(ref %s)' % sx_e(e[1])
     if t == 'deref': return '(deref %s)' % sx_e(e[1])
+    if t == 'ifchain':
+        # the grammar folds the else-if branches from the LAST to the first: each is the false-branch of the one before it
+        tail = sx_block(e[2]) if e[2] is not None else None
+        for c, b in reversed(e[1]):
+            tail = '(cond %s %s%s)' % (sx_e(c), sx_block(b), ' ' + tail if tail is not None else '')
+        return tail
     if t == 'lam1': return '(func (%s) () %s)' % (hx(e[1]), sx_e(e[2]))
     if t == 'lam0': return '(func () () %s)' % sx_block(e[1])
     if t == 'num': return '(n %d %d)' % (e[2], e[3])
@@ -536,6 +545,9 @@ class Gen:
             y = r.random()
             if y < 0.4: e = self.block(r.randint(1, 2), d - 1)
             elif y < 0.55: e = ('elif', self.expr('bool', 2), self.block(1, d - 1), self.block(1, d - 1) if r.random() < 0.5 else None)
+            elif y < 0.7:
+                branches = [(c, legalize(flatten(t)))] + [(self.expr(r.choice(['bool', 'mixed']), 2), legalize(flatten(self.block(1, d - 1)))) for _ in range(r.randint(2, 3))]
+                return ('expr', ('ifchain', branches, legalize(flatten(self.block(1, d - 1))) if r.random() < 0.5 else None))
             return ('if', c, t, e)
         if x < 0.67 and d > 0:
             # bounded while: counter loop
@@ -687,7 +699,7 @@ SIDE_EFFECT = ('var', 'set', 'if', 'while', 'for', 'func', 'ret', 'break', 'cont
 
 def is_side_effect(s):
     if s[0] in SIDE_EFFECT: return True
-    if s[0] == 'expr': return s[1][0] in ('call', 'ifx')
+    if s[0] == 'expr': return s[1][0] in ('call', 'ifx', 'ifchain', 'tern')
     return False
 
 
@@ -1339,6 +1351,120 @@ def fam_json(rnd, n):
     return cs
 
 
+def fam_order(rnd, n):
+    """every n-ary / left-recursive grammar rule whose fold direction or evaluation order is observable, each with >= 3 elements
+    and probes that record the order: else-if chains (0-4 branches, with/without else, overlapping conditions, conditions and
+    bodies with side effects, nested, as expression values), argument lists, array and dictionary literal items, `||` / `&&`
+    chains, statement lists, use() lists, parameter lists, indexer/call chains, right-nested ternaries, same-operator chains"""
+    cs = []
+    add = lambda stmts: cs.append(mk_case(stmts, 'order'))
+    # fp(i, v): records i in the log array vl and returns v
+    PRE = [('var', 'vl', ('arr', [])), ('func', 'fp', ['pi', 'pv'], [('vl', None)], [('expr', ('call', ('dot', V('vl'), 'add'), [V('pi')])), ('ret', V('pv'))])]
+    P = lambda i, v: C('fp', N(i) if isinstance(i, int) else S(i), v)
+    LOG = lambda tag: ('expr', ('call', ('dot', V('vl'), 'add'), [S(tag)]))
+    B = lambda b: ('bool', b)
+    # ---- else-if chains: threshold ladders over several inputs (several conditions hold at once)
+    for k in range(0, 5):
+        for with_else in (True, False):
+            branches = [(('bin', '<', V('vx'), N(10 * (i + 1))), [('set', '=', V('vr'), S('b%d' % i))]) for i in range(k + 1)]
+            chain = ('ifchain', branches, [('set', '=', V('vr'), S('else'))] if with_else else None)
+            body = [('var', 'vr', S('none')), ('expr', chain), ('expr', ('call', ('dot', V('va'), 'add'), [V('vr')]))]
+            add([('var', 'va', ('arr', [])), ('for', 'vx', None, A(5, 15, 25, 35, 45, 55), body), ('expr', V('va'))])
+            # the same ladder written from the widest to the narrowest condition (the first one that holds wins)
+            branches2 = [(('bin', '<', V('vx'), N(10 * (k + 1 - i))), [('set', '=', V('vr'), S('b%d' % i))]) for i in range(k + 1)]
+            add([('var', 'va', ('arr', [])), ('for', 'vx', None, A(5, 15, 25, 35, 45, 55),
+                 [('var', 'vr', S('none')), ('expr', ('ifchain', branches2, [('set', '=', V('vr'), S('else'))] if with_else else None)), ('expr', ('call', ('dot', V('va'), 'add'), [V('vr')]))]), ('expr', V('va'))])
+    # ---- else-if chains: every truth assignment of up to 4 probed conditions; conditions and bodies log their evaluation
+    import itertools
+    for k in range(1, 5):
+        combos = list(itertools.product([False, True], repeat=k))
+        if len(combos) > 8: combos = rnd.sample(combos, 8) + [tuple([False] + [True] * (k - 1)), tuple([False] * k)]
+        for tv in combos:
+            for with_else in (True, False):
+                branches = [(P(i + 1, B(tv[i])), [LOG('B%d' % (i + 1))]) for i in range(k)]
+                add(PRE + [('expr', ('ifchain', branches, [LOG('E')] if with_else else None)), ('expr', V('vl'))])
+    # chain as an expression value; nested chains (in a body, in the final else, in a condition)
+    for tv in itertools.product([False, True], repeat=3):
+        chain = ('ifchain', [(P(1, B(tv[0])), [('expr', S('A'))]), (P(2, B(tv[1])), [('expr', S('B'))]), (P(3, B(tv[2])), [('expr', S('C'))])], [('expr', S('D'))])
+        add(PRE + [('var', 'vr', chain), ('expr', ('arr', [V('vr'), V('vl')]))])
+        chain2 = ('ifchain', [(P(1, B(tv[0])), [('expr', S('A'))]), (P(2, B(tv[1])), [('expr', S('B'))]), (P(3, B(tv[2])), [('expr', S('C'))])], None)
+        add(PRE + [('var', 'vr', chain2), ('expr', ('arr', [V('vr'), V('vl')]))])
+        inner = ('ifchain', [(P('i1', B(tv[1])), [LOG('IB1')]), (P('i2', B(tv[2])), [LOG('IB2')]), (P('i3', B(True)), [LOG('IB3')])], [LOG('IE')])
+        add(PRE + [('expr', ('ifchain', [(P(1, B(tv[0])), [('expr', inner)]), (P(2, B(tv[1])), [LOG('B2')]), (P(3, B(tv[2])), [('expr', inner)])], [('expr', inner)])), ('expr', V('vl'))])
+        add(PRE + [('expr', ('ifchain', [(('ifchain', [(P(1, B(tv[0])), [('expr', B(False))]), (P(2, B(tv[1])), [('expr', B(True))]), (P(3, B(tv[2])), [('expr', B(False))])], [('expr', B(True))]), [LOG('T')]),
+                                         (P(4, B(tv[2])), [LOG('B4')]), (P(5, B(tv[1])), [LOG('B5')])], [LOG('E')])), ('expr', V('vl'))])
+    # chains inside a function with return in the branches
+    for x in (5, 15, 25, 35):
+        add([('func', 'fa', ['px'], [], [('expr', ('ifchain', [(('bin', '<', V('px'), N(10)), [('ret', S('a'))]), (('bin', '<', V('px'), N(20)), [('ret', S('b'))]), (('bin', '<', V('px'), N(30)), [('ret', S('c'))])], None)), ('ret', S('z'))]),
+             ('expr', C('fa', N(x)))])
+    # ---- argument lists, array items, dictionary items, parameter lists (positions and evaluation order)
+    vals = [S('a'), S('b'), S('c'), S('d'), S('e')]
+    for k in (3, 4, 5):
+        params = ['p%d' % i for i in range(k)]
+        add(PRE + [('func', 'fa', params, [], [('ret', ('arr', [V(p_) for p_ in params]))]), ('var', 'vr', C('fa', *[P(i + 1, vals[i]) for i in range(k)])), ('expr', ('arr', [V('vr'), V('vl')]))])
+        add(PRE + [('var', 'vr', ('arr', [P(i + 1, vals[i]) for i in range(k)])), ('expr', ('arr', [V('vr'), V('vl')]))])
+        keys = ['kc', 'ka', 'ke', 'kb', 'kd'][:k]
+        add(PRE + [('var', 'vr', ('dict', [(keys[i], P(i + 1, vals[i])) for i in range(k)])), ('expr', ('arr', [V('vr'), V('vl')]))])
+        add(PRE + [('var', 'vr', ('lam', params, [], ('arr', [V(p_) for p_ in reversed(params)]))), ('expr', ('arr', [('call', V('vr'), [P(i + 1, vals[i]) for i in range(k)]), V('vl')]))])
+        add(PRE + [('var', 'vr', C('union', *[('arr', [P(i + 1, N(k - i))]) for i in range(k)])), ('expr', ('arr', [V('vr'), V('vl')]))])
+    add([('var', 'vr', ('dict', [('ka', N(1)), ('kb', ('bin', '+', ('dot', ('this',), 'ka'), N(1))), ('ka', ('bin', '+', ('dot', ('this',), 'kb'), N(10))), ('kc', ('dot', ('this',), 'ka'))])), ('expr', V('vr'))])
+    # ---- || and && chains (left associative, short circuit), mixed
+    for k in (3, 4):
+        for tv in itertools.product([False, True], repeat=k):
+            falsy = [N(0), S(''), ('null',), B(False)]
+            truthy = [N(7), S('t'), ('arr', [N(1)]), B(True)]
+            ops = [P(i + 1, truthy[i] if tv[i] else falsy[i]) for i in range(k)]
+            for op in ('||', '&&'):
+                e = ops[0]
+                for o in ops[1:]:
+                    e = ('bin', op, e, o)
+                add(PRE + [('var', 'vr', e), ('expr', ('arr', [V('vr'), V('vl')]))])
+            e = ('bin', '||', ('bin', '&&', ops[0], ops[1]), ops[2]) if k == 3 else ('bin', '||', ('bin', '&&', ops[0], ops[1]), ('bin', '&&', ops[2], ops[3]))
+            add(PRE + [('var', 'vr', e), ('expr', ('arr', [V('vr'), V('vl')]))])
+            e = ('bin', '&&', ops[0], ('bin', '||', ops[1], ops[2]))
+            add(PRE + [('var', 'vr', e), ('expr', ('arr', [V('vr'), V('vl')]))])
+    # ---- statement lists (top level, block, function body, lambda body, namespace body): order and last value
+    sl = [LOG('s1'), LOG('s2'), LOG('s3'), LOG('s4')]
+    add(PRE + sl + [('expr', V('vl'))])
+    add(PRE + [('if', B(True), sl, None), ('while', ('bin', '<', C('len', V('vl')), N(8)), sl), ('expr', V('vl'))])
+    add(PRE + [('func', 'fa', [], [('vl', None)], sl + [('expr', S('last'))]), ('expr', ('arr', [C('fa'), V('vl')]))])
+    add(PRE + [('var', 'fa', ('lam0', sl + [('expr', S('last'))])), ('try', [('var', 'vr', C('fa'))], [('var', 'vr', S('caught'))]), ('expr', ('arr', [V('vr'), V('vl')]))])
+    add(PRE + [('set', '=', ('dot', ('globals',), 'gl'), V('vl')), ('namespace', 'Nx', [('expr', ('call', ('dot', V('gl'), 'add'), [S('n%d' % i)])) for i in range(1, 4)] + [('set', '=', V('ka'), C('len', V('gl')))]), ('expr', ('arr', [V('vl'), ('dot', V('Nx'), 'ka')]))])
+    # ---- use() lists: evaluated in key order whatever the textual order; the first occurrence of a name wins
+    for names in (['vc', 'va', 'vb'], ['vb', 'vc', 'va', 'vd'], ['va', 'vb', 'va'], ['vd', 'vd', 'va', 'vc', 'vb']):
+        uses = [(nm, P(i + 1, vals[i])) for i, nm in enumerate(names)]
+        add(PRE + [('var', 'fa', ('fn', [], uses, [('ret', ('arr', [('dot', ('locals',), nm) for nm in sorted(set(names))]))])), ('expr', ('arr', [C('fa'), V('vl')]))])
+    # ---- indexer, call and method chains
+    add([('var', 'va', ('dict', [('ka', ('dict', [('kb', ('dict', [('kc', ('arr', [N(1), ('arr', [N(2), ('arr', [N(3), N(4)])])]))]))]))])),
+         ('expr', ('arr', [('idx', ('idx', ('idx', ('dot', ('dot', ('dot', V('va'), 'ka'), 'kb'), 'kc'), N(1)), N(1)), N(0)), ('dot', ('idx', ('dot', V('va'), 'ka'), S('kb')), 'kc')]))])
+    add([('var', 'fa', ('fn', ['pa'], [], [('ret', ('fn', ['pb'], [('pa', None)], [('ret', ('fn', ['pc'], [('pa', None), ('pb', None)], [('ret', ('arr', [V('pa'), V('pb'), V('pc')]))]))]))])),
+         ('expr', ('call', ('call', ('call', V('fa'), [N(1)]), [N(2)]), [N(3)]))])
+    add([('expr', ('call', ('dot', ('call', ('dot', ('call', ('dot', A(3, 1, 2), 'sort'), []), 'reverse'), []), 'join'), [S('-')]))])
+    # ---- right-nested ternaries, same-operator chains of non-commutative operators
+    for tv in itertools.product([False, True], repeat=3):
+        add(PRE + [('var', 'vr', ('tern', P(1, B(tv[0])), P('a', S('A')), ('tern', P(2, B(tv[1])), P('b', S('B')), ('tern', P(3, B(tv[2])), P('c', S('C')), P('d', S('D')))))), ('expr', ('arr', [V('vr'), V('vl')]))])
+    for op in ('-', '/', '%', '<<', '>>', '+'):
+        xs = {'-': (100, 30, 20, 5), '/': (256, 8, 4, 2), '%': (1000, 300, 70, 9), '<<': (1, 2, 3, 1), '>>': (4096, 2, 3, 1), '+': (1, 2, 3, 4)}[op]
+        e = N(xs[0])
+        for x in xs[1:]:
+            e = ('bin', op, e, N(x))
+        add([('expr', e)])
+        add(PRE + [('var', 'vr', ('bin', op, ('bin', op, P(1, N(xs[0])), P(2, N(xs[1]))), P(3, N(xs[2])))), ('expr', ('arr', [V('vr'), V('vl')]))])
+    add([('expr', ('bin', '+', ('bin', '+', ('bin', '+', S('a'), N(1)), N(2)), S('b')))])
+    add([('expr', ('bin', '+', ('bin', '+', N(1), N(2)), ('bin', '+', S('a'), ('bin', '+', N(1), N(2)))))])
+    # ---- random chains
+    for _ in range(n):
+        k = rnd.randint(2, 4)
+        tv = [rnd.random() < 0.5 for _i in range(k + 1)]
+        def body(tag, d):
+            if d > 0 and rnd.random() < 0.3:
+                return [('expr', ('ifchain', [(P(tag + 'c%d' % j, B(rnd.random() < 0.5)), body(tag + str(j), d - 1)) for j in range(rnd.randint(2, 3))], body(tag + 'e', 0) if rnd.random() < 0.6 else None))]
+            return [LOG(tag)] + ([('set', '=', ('dot', ('this',), 'kt'), S(tag))] if rnd.random() < 0.3 else [])
+        chain = ('ifchain', [(P(i, B(tv[i])), body('B%d' % i, 1)) for i in range(k + 1)], body('E', 1) if rnd.random() < 0.6 else None)
+        add(PRE + [('expr', chain), ('expr', V('vl'))])
+    return cs
+
+
 NEVER_VALID = ['$', '@@', '`']      # characters that are no terminal of the grammar at all (the lexer hands them through as themselves)
 CLOSERS = {')': '(', ']': '[', '}': '{'}
 
@@ -1566,6 +1692,7 @@ def generate(seed, tier):
     cases += fam_refs(rnd, {'quick': 200, 'thorough': 2000, 'search': 400}.get(tier, 200))
     cases += fam_namespaces(rnd, {'quick': 150, 'thorough': 1500, 'search': 300}.get(tier, 150))
     cases += fam_json(rnd, {'quick': 150, 'thorough': 1500, 'search': 300}.get(tier, 150))
+    cases += fam_order(rnd, {'quick': 150, 'thorough': 1500, 'search': 300}.get(tier, 150))
     for _ in range(n_rand):
         try:
             cases.append(mk_case(random_program(rnd), 'random-program'))
